@@ -344,6 +344,18 @@ func (r *runner) apply(o hop) bool {
 				}
 			}
 		}
+		// finding pattern: a selected series still has an in-order sample below Head.MinTime in a
+		// head chunk (straddling the last truncation point) inside the range
+		hmin, _, _ := r.d.HeadTimes()
+		for _, i := range o.Sel {
+			for _, c := range hv.io[i] {
+				for _, x := range c.Samples {
+					if x.T < hmin && x.T >= o.Mint && x.T <= o.Maxt {
+						r.notePattern("delete-misses-dead-head-sample")
+					}
+				}
+			}
+		}
 		if err := r.d.Delete(o.Mint, o.Maxt, matcherFor(o.Sel, r.n)); err != nil {
 			r.goViol = append(r.goViol, fmt.Sprintf("Delete returned %v", err))
 			return false
@@ -353,6 +365,16 @@ func (r *runner) apply(o hop) bool {
 	case opCompact, opCompactOOO, opClean:
 		var err error
 		name := ""
+		inOrderBlocks := func() int {
+			k := 0
+			for _, b := range r.d.Blocks() {
+				if !b.OOO {
+					k++
+				}
+			}
+			return k
+		}
+		nb := inOrderBlocks()
 		switch o.Kind {
 		case opCompact:
 			err, name = r.d.Compact(), "Compact"
@@ -364,6 +386,18 @@ func (r *runner) apply(o hop) bool {
 		if err != nil {
 			r.goViol = append(r.goViol, fmt.Sprintf("%s returned %v", name, err))
 			return false
+		}
+		if o.Kind == opCompactOOO || (o.Kind == opCompact && inOrderBlocks() > nb) {
+			// Not modelled (see notes): compactOOOHead wrote its blocks but truncateOOO left the
+			// out-of-order chunks in the head (chunks reloaded by an earlier restart whose refs are
+			// not above Head.minOOOMmapRef).  The history ends before this op.
+			for _, xs := range view(r.d, r.n).ooo {
+				if len(xs) > 0 {
+					r.classes["stopped-ooo-compaction-kept-head-chunks"]++
+					r.stopped = true
+					return false
+				}
+			}
 		}
 		r.steps = append(r.steps, fmt.Sprintf("SOp %s %s", name, gObs(r.d, r.n)))
 	case opRestart:
@@ -461,7 +495,7 @@ func (r *runner) apply(o hop) bool {
 		for _, hs := range r.d.HeadDump() {
 			fmt.Fprintf(os.Stderr, "      %s ref=%d io=%v ooo=%v\n", hs.Labels, hs.Ref, hs.InOrder, hs.OOO)
 		}
-		fmt.Fprintf(os.Stderr, "      logs=%v\n", r.d.Logs())
+		fmt.Fprintf(os.Stderr, "      tombs=%v logs=%v\n", r.d.HeadTombstones(), r.d.Logs())
 	}
 	r.classes["op-"+opNames[o.Kind]]++
 	r.descs = append(r.descs, d)
@@ -658,6 +692,9 @@ func corpus() []fixed {
 		{"finding-restart-reloads-deleted-ooo-chunk", 1, 100000, []hop{
 			txs(smp{0, 300, 1}), txs(smp{0, 150, 2}), {Kind: opCompactOOO},
 			{Kind: opDelete, Mint: 140, Maxt: 160, Sel: []int{0}}, fullQuery(1, false), {Kind: opRestart}, fullQuery(1, false)}},
+		{"finding-delete-skips-dead-head-sample-in-straddling-chunk", 1, 0, []hop{
+			txs(smp{0, -2600, 1}, smp{0, -5, 2}), txs(smp{0, 203, 8}, smp{0, 1000, 9}), {Kind: opCompact}, {Kind: opRestart}, {Kind: opCompact},
+			{Kind: opDelete, Mint: -2306, Maxt: 194, Sel: []int{0}}, fullQuery(1, false)}},
 		{"finding-restart-replays-deleted-block-from-wal", 1, 0, []hop{
 			txs(smp{0, 100, 1}), txs(smp{0, 200, 2}), txs(smp{0, 1700, 3}), {Kind: opCompact},
 			{Kind: opDelete, Mint: 0, Maxt: 999, Sel: []int{0}}, {Kind: opClean}, fullQuery(1, false), {Kind: opRestart}, fullQuery(1, false)}},
